@@ -32,6 +32,27 @@ class Universe:
         self._build(setup)
         self.sweep()
 
+    @classmethod
+    def from_model(cls, model=None, graphs=(), functions=()):
+        """Universe over existing IR objects (no construction): everything reachable from a model."""
+        u = cls.__new__(cls)
+        u.safe = False
+        u.handles, u.graphs, u.nodes, u.values, u.tensors, u._ids = [], [], [], [], [], {}
+        gs = list(graphs)
+        fs = list(functions)
+        if model is not None:
+            gs.append(model.graph)
+            fs.extend(model.functions.values())
+        for g in gs:
+            u.reg_graph(g)
+            u.handles.append(g)
+        for f in fs:
+            u.reg_graph(f.graph)
+            u.handles.append(f)
+        u.function = fs[0] if fs else None
+        u.sweep()
+        return u
+
     # -- registration -------------------------------------------------------------
     def _reg(self, pool, kind, obj):
         key = id(obj)
